@@ -120,7 +120,7 @@ PROPS = {
     },
     'C10': {
         'props': ['theories/Props/C10.v'], 'deps': VERIFY_DEPS,
-        'streams': ['l3-validate', 'l2-tags'],
+        'streams': ['l3-validate', 'l2-tags', 'l5-props'],
         'trusted_base': GOV_TB,
         'assumptions': COMMON_ASSUME,
     },
